@@ -454,4 +454,161 @@ example (k : Nat) (kind : StreamKind) (isLazy : Bool) (rp : LoadRes)
     (by decide +kernel) (by decide +kernel) name
   exact ⟨o2, t, r, a', h0, h, h'⟩
 
+/-! ### 4. version requirements and definitions on a truncated file -/
+
+theorem tabStrAt_nil (idx : Nat) : Spec.tabStrAt [] idx = none := by
+  simp [Spec.tabStrAt]
+
+theorem needGet_nodata (e : Enc) (b : SecBuf) (str : Option SecBuf) (num no : BitVec 32)
+    (h : (secData b).isNone = true) : TQ.needGet e b str num no = .ok none := by
+  unfold TQ.needGet
+  by_cases hg : vr_guard true no num = true
+  · simp only [hg, if_true]; rfl
+  · simp only [hg, Bool.false_eq_true, if_false, h, tq_vr_hdr_bad, Bool.true_or, if_true]
+    try rfl
+
+/-- a linked string section without data answers like no string section at all -/
+theorem needGet_str_nodata (e : Enc) (b s : SecBuf) (num no : BitVec 32) (h : s.getData.data = none) :
+    TQ.needGet e b (some s) num no = TQ.needGet e b none num no := by
+  have hk : ∀ idx, strLookup (some s) idx = strLookup none idx := by
+    intro idx; simp only [strLookup, h]
+  unfold TQ.needGet
+  simp only [hk]
+
+theorem needChainWf_nil (e : Enc) (bs : Bytes) (k : Nat) : needChainWf e bs [] k = false := by
+  unfold needChainWf
+  split <;> simp [tabStrAt_nil]
+
+/-- **prefix_verneed_sound** (C17 for `versym_r_section_accessor::get_entry`, the code after fixes/19,
+    `TQ.runQuery … (.needGet i num no)`): on a prefix of a well-formed image that loads, for EVERY section index `i`
+    of the file, EVERY cached count `num` and EVERY index `no`, the accessor RETURNS, and what it returns is either a
+    refusal (false: the section's or its linked string table's bytes are not in the prefix, or the complete file's
+    answer is a refusal too) or exactly `specNeed img i num no` — what `verneed_tq_reports_spec` says the COMPLETE
+    file's load reports (the GNU-ABI reference reader on the complete file's bytes).  Never a different record. -/
+theorem prefix_verneed_sound (img : Bytes) (k : Nat) (o : Obj) (hP : PrefixLoadedC img k o) (i : Nat)
+    (hi : i < eh img "e_shnum") (num no : BitVec 32) :
+    ∃ o2 out, TQ.runQuery o (.needGet i num no) = .ok (o2, .need out) ∧ PrefixLoadedC img k o2 ∧
+      (out = none ∨ out = specNeed img i num no) := by
+  obtain ⟨o1, b1, h1, hP1, hR, hLS, _, _⟩ := prefix_secResident_c img k o hP i hi
+  have hs : TQ.settle o i = some (o1, b1) := h1
+  obtain ⟨hP2, r2a, r2b⟩ := settleOpt_prefix img k o1 hP1 b1.link.toNat
+  have key : ∃ out, TQ.needGet (encOf img) b1 (TQ.settleOpt o1 b1.link.toNat).2 num no = .ok out ∧
+      (out = none ∨ out = specNeed img i num no) := by
+    by_cases hno : no.toNat < num.toNat
+    rotate_left
+    · refine ⟨none, ?_, Or.inl rfl⟩
+      have hg : vr_guard true no num = true := by
+        simp only [vr_guard, Bool.not_true, Bool.false_or, BitVec.ule, decide_eq_true_eq]; omega
+      simp only [TQ.needGet, hg, if_true]; rfl
+    cases hd : b1.data with
+    | none =>
+      exact ⟨none, needGet_nodata _ _ _ _ _ (by rw [pready_secData hR, hd]; rfl), Or.inl rfl⟩
+    | some d =>
+      obtain ⟨hF, hocc, hinv, hcont, _, _, _⟩ := pready_inv hR hLS hd
+      have hL : b1.link.toNat = sh img i "sh_link" := hF.link
+      by_cases hl : sh img i "sh_link" < eh img "e_shnum"
+      · obtain ⟨s, e, hRs, hLSs⟩ := r2a (by rw [hL]; exact hl)
+        rw [e]
+        cases hds : s.data with
+        | none =>
+          refine ⟨none, ?_, Or.inl rfl⟩
+          rw [needGet_str_nodata _ _ s _ _ (by rw [getData_of_settled hRs.settled]; exact hds)]
+          rw [tq_needGet_core (encOf img) b1 none hinv (fun s h => by cases h) num no hno]
+          simp only [tabOf, needChainWf_nil, Bool.false_eq_true, if_false]
+        | some ds =>
+          obtain ⟨_, _, hinvs, hconts, _, _, _⟩ := pready_inv hRs hLSs hds
+          rw [hL] at hconts
+          refine ⟨_, tq_needGet_core (encOf img) b1 (some s) hinv (fun s' h => by cases h; exact hinvs) num no hno,
+            Or.inr ?_⟩
+          simp only [specNeed, hno, true_and, tabOf, hcont, hconts, verTab, hl, if_true]
+      · rw [r2b (by rw [hL]; omega)]
+        refine ⟨_, tq_needGet_core (encOf img) b1 none hinv (fun s h => by cases h) num no hno, Or.inr ?_⟩
+        simp only [specNeed, hno, true_and, tabOf, hcont, verTab, hl, if_false]
+  obtain ⟨out, hq, hout⟩ := key
+  exact ⟨_, out, by simp only [TQ.runQuery, hs, hP.base.enc, hq, TQ.liftQ]; rfl, hP2, hout⟩
+
+example (k : Nat) (kind : StreamKind) (isLazy : Bool) (rp : LoadRes)
+    (hp : load {} { data := exImg2.take k, kind := kind } isLazy = .ok rp) (hok : rp.ok = true) (num no : BitVec 32) :
+    ∃ o2 out, TQ.runQuery rp.obj (.needGet 6 num no) = .ok (o2, .need out) ∧
+      (out = none ∨ out = specNeed exImg2 6 num no) := by
+  obtain ⟨o2, out, h, _, h'⟩ := prefix_verneed_sound exImg2 k rp.obj
+    (prefixLoadedC_of_load exImg2 exImg2_wf {} rfl k kind isLazy rp hp hok) 6 (by decide +kernel) num no
+  exact ⟨o2, out, h, h'⟩
+
+theorem defGet_nodata (e : Enc) (b : SecBuf) (str : Option SecBuf) (num no : BitVec 32)
+    (h : (secData b).isNone = true) : TQ.defGet e b str num no = .ok none := by
+  unfold TQ.defGet
+  by_cases hg : vd_guard true no num = true
+  · simp only [hg, if_true]; rfl
+  · simp only [hg, Bool.false_eq_true, if_false, h, tq_vd_hdr_bad, Bool.true_or, if_true]
+    try rfl
+
+/-- a linked string section without data answers like no string section at all -/
+theorem defGet_str_nodata (e : Enc) (b s : SecBuf) (num no : BitVec 32) (h : s.getData.data = none) :
+    TQ.defGet e b (some s) num no = TQ.defGet e b none num no := by
+  have hk : ∀ idx, strLookup (some s) idx = strLookup none idx := by
+    intro idx; simp only [strLookup, h]
+  unfold TQ.defGet
+  simp only [hk]
+
+theorem defChainWf_nil (e : Enc) (bs : Bytes) (k : Nat) : defChainWf e bs [] k = false := by
+  unfold defChainWf
+  split <;> simp [tabStrAt_nil]
+
+/-- **prefix_verdef_sound** (C17 for `versym_d_section_accessor::get_entry`, the code after fixes/19,
+    `TQ.runQuery … (.defGet i num no)`): on a prefix of a well-formed image that loads, for EVERY section index `i`
+    of the file, EVERY cached count `num` and EVERY index `no`, the accessor RETURNS, and what it returns is either a
+    refusal (false: the section's or its linked string table's bytes are not in the prefix, or the complete file's
+    answer is a refusal too) or exactly `specDef img i num no` — what `verdef_tq_reports_spec` says the COMPLETE
+    file's load reports (the GNU-ABI reference reader on the complete file's bytes).  Never a different record. -/
+theorem prefix_verdef_sound (img : Bytes) (k : Nat) (o : Obj) (hP : PrefixLoadedC img k o) (i : Nat)
+    (hi : i < eh img "e_shnum") (num no : BitVec 32) :
+    ∃ o2 out, TQ.runQuery o (.defGet i num no) = .ok (o2, .vdef out) ∧ PrefixLoadedC img k o2 ∧
+      (out = none ∨ out = specDef img i num no) := by
+  obtain ⟨o1, b1, h1, hP1, hR, hLS, _, _⟩ := prefix_secResident_c img k o hP i hi
+  have hs : TQ.settle o i = some (o1, b1) := h1
+  obtain ⟨hP2, r2a, r2b⟩ := settleOpt_prefix img k o1 hP1 b1.link.toNat
+  have key : ∃ out, TQ.defGet (encOf img) b1 (TQ.settleOpt o1 b1.link.toNat).2 num no = .ok out ∧
+      (out = none ∨ out = specDef img i num no) := by
+    by_cases hno : no.toNat < num.toNat
+    rotate_left
+    · refine ⟨none, ?_, Or.inl rfl⟩
+      have hg : vd_guard true no num = true := by
+        simp only [vd_guard, Bool.not_true, Bool.false_or, BitVec.ule, decide_eq_true_eq]; omega
+      simp only [TQ.defGet, hg, if_true]; rfl
+    cases hd : b1.data with
+    | none =>
+      exact ⟨none, defGet_nodata _ _ _ _ _ (by rw [pready_secData hR, hd]; rfl), Or.inl rfl⟩
+    | some d =>
+      obtain ⟨hF, hocc, hinv, hcont, _, _, _⟩ := pready_inv hR hLS hd
+      have hL : b1.link.toNat = sh img i "sh_link" := hF.link
+      by_cases hl : sh img i "sh_link" < eh img "e_shnum"
+      · obtain ⟨s, e, hRs, hLSs⟩ := r2a (by rw [hL]; exact hl)
+        rw [e]
+        cases hds : s.data with
+        | none =>
+          refine ⟨none, ?_, Or.inl rfl⟩
+          rw [defGet_str_nodata _ _ s _ _ (by rw [getData_of_settled hRs.settled]; exact hds)]
+          rw [tq_defGet_core (encOf img) b1 none hinv (fun s h => by cases h) num no hno]
+          simp only [tabOf, defChainWf_nil, Bool.false_eq_true, if_false]
+        | some ds =>
+          obtain ⟨_, _, hinvs, hconts, _, _, _⟩ := pready_inv hRs hLSs hds
+          rw [hL] at hconts
+          refine ⟨_, tq_defGet_core (encOf img) b1 (some s) hinv (fun s' h => by cases h; exact hinvs) num no hno,
+            Or.inr ?_⟩
+          simp only [specDef, hno, true_and, tabOf, hcont, hconts, verTab, hl, if_true]
+      · rw [r2b (by rw [hL]; omega)]
+        refine ⟨_, tq_defGet_core (encOf img) b1 none hinv (fun s h => by cases h) num no hno, Or.inr ?_⟩
+        simp only [specDef, hno, true_and, tabOf, hcont, verTab, hl, if_false]
+  obtain ⟨out, hq, hout⟩ := key
+  exact ⟨_, out, by simp only [TQ.runQuery, hs, hP.base.enc, hq, TQ.liftQ]; rfl, hP2, hout⟩
+
+example (k : Nat) (kind : StreamKind) (isLazy : Bool) (rp : LoadRes)
+    (hp : load {} { data := exImg2.take k, kind := kind } isLazy = .ok rp) (hok : rp.ok = true) (num no : BitVec 32) :
+    ∃ o2 out, TQ.runQuery rp.obj (.defGet 7 num no) = .ok (o2, .vdef out) ∧
+      (out = none ∨ out = specDef exImg2 7 num no) := by
+  obtain ⟨o2, out, h, _, h'⟩ := prefix_verdef_sound exImg2 k rp.obj
+    (prefixLoadedC_of_load exImg2 exImg2_wf {} rfl k kind isLazy rp hp hok) 7 (by decide +kernel) num no
+  exact ⟨o2, out, h, h'⟩
+
 end ElfioVerif.ComposeTables
